@@ -1,6 +1,10 @@
 (* Pinned statements of C06: re-checked on every run. *)
-From SF Require Import Base.Prelude Gen.Generated Unsized.Types Unsized.Parse Unsized.Machine Unsized.Ops Unsized.Run Unsized.Proofs.EncodeParse Unsized.Proofs.Mem Unsized.Proofs.Notify Unsized.Proofs.Flat Unsized.Proofs.Layout Unsized.Proofs.Observe Unsized.Proofs.Path Unsized.Proofs.Context Unsized.Proofs.FocusOps Unsized.Proofs.NotifyInside Unsized.Proofs.Resize Unsized.Proofs.GenOps Unsized.Proofs.History Unsized.Proofs.Init Unsized.Proofs.History2 Unsized.Proofs.ExecTie Unsized.Proofs.ExecTie2 Unsized.Proofs.Keyed Unsized.Proofs.NotifyInside2 Unsized.Proofs.SetData Properties.C06.
+From SF Require Import Base.Prelude Gen.Generated Unsized.Types Unsized.Parse Unsized.Machine Unsized.Ops Unsized.Run Unsized.Proofs.EncodeParse Unsized.Proofs.Mem Unsized.Proofs.Notify Unsized.Proofs.Flat Unsized.Proofs.Layout Unsized.Proofs.Observe Unsized.Proofs.Path Unsized.Proofs.Context Unsized.Proofs.FocusOps Unsized.Proofs.NotifyInside Unsized.Proofs.Resize Unsized.Proofs.GenOps Unsized.Proofs.History Unsized.Proofs.Init Unsized.Proofs.History2 Unsized.Proofs.ExecTie Unsized.Proofs.ExecTie2 Unsized.Proofs.Keyed Unsized.Proofs.NotifyInside2 Unsized.Proofs.SetData Unsized.Proofs.History3 Unsized.Proofs.History4 Properties.C06.
 
+Check (C06_all_ops_continue_after_failures :
+  forall ovf t h v s top pi0 v' l,
+    RepF pi0 t v s top -> m_refuse s <> 1 -> orunXE (m_cap s) (m_refuse s) t v h = Some (v', l) ->
+    exists s' top' pi', mrunXE ovf t s top h = Ok (s', top', l) /\ RepF pi' t v' s' top').
 Check (C06_all_ops_failure_is_clean :
   forall ovf t v s top pi0 o code,
     RepF pi0 t v s top -> oerrX (m_cap s) (m_refuse s) t v o = Some code ->
@@ -45,6 +49,7 @@ Check (C06_flat_continue_after_failure :
 Check (C06_realloc_refusal_precedes_writes :
   forall s n, m_len s < n -> m_refuse s = 1 -> realloc s n = Err E_REALLOC).
 
+Print Assumptions C06_all_ops_continue_after_failures.
 Print Assumptions C06_all_ops_failure_is_clean.
 Print Assumptions C06_general_failure_is_clean.
 Print Assumptions C06_general_continue_after_failures.
